@@ -87,34 +87,79 @@ pub fn run(p: &Params) -> Run {
     }
     // INT arguments at the 64-bit extremes: the exact sum may fit while a partial sum in SOME order does not. The code adds
     // with `checked_add` in arrival order, so such an input errors in one order and answers in another (finding D71) — known
-    // only in exactly that form: one order reports the overflow error, the other prints the exact sum.
+    // only in exactly that form, decided from the VALUES: the i128 partial sums say which order must overflow; the class is
+    // assigned when exactly one of the two orders overflows, that order reports exactly the overflow error kind
+    // (`err:UndefinedOperation`, nothing printed) and the other prints one record whose SUM cell PARSES to the exact sum
+    // (its COUNT(*) cell to the number of lines, its key to 'a'). Every other difference between the two orders — another
+    // error kind, an error in an order whose partial sums all fit, a wrong sum next to an error — is a violation. Both
+    // orders also go to the Lean model (`batch` cases: `addToSum` reports `undefinedOperation` at the same partial sum).
     for _ in 0..p.n(120, 3000) {
         let pool: &[i64] = &[i64::MAX, i64::MAX - 1, 1, -1, 2, -2, i64::MIN, i64::MIN + 1, 0, 4611686018427387904, -4611686018427387904];
         let vals: Vec<i64> = (0..2 + rng.below(4)).map(|_| *rng.pick(pool)).collect();
         let exact: i128 = vals.iter().map(|v| *v as i128).sum();
-        let fits = exact >= i64::MIN as i128 && exact <= i64::MAX as i128;
         let q = *rng.pick(&["SELECT SUM(v) FROM t", "SELECT k, SUM(v) FROM t GROUP BY k", "SELECT COUNT(*), SUM(v) FROM t"]);
         let prepared = match prepare(C04_DEF, q) { Ok(p) => p, Err(_) => continue };
-        let lines: Vec<String> = vals.iter().map(|v| format!("a;{};1;;;;;", v)).collect();
-        let mut perm = lines.clone();
-        perm.reverse();
-        if rng.chance(1, 2) { rng.shuffle(&mut perm); }
+        let mut pvals = vals.clone();
+        pvals.reverse();
+        if rng.chance(1, 2) { rng.shuffle(&mut pvals); }
+        let to_lines = |vs: &[i64]| -> Vec<String> { vs.iter().map(|v| format!("a;{};1;;;;;", v)).collect() };
+        let (lines, perm) = (to_lines(&vals), to_lines(&pvals));
+        // does SOME partial sum of this order leave the 64-bit range? (the running sum starts at 0)
+        let overflows = |vs: &[i64]| -> bool { let mut acc = 0i128; vs.iter().any(|v| { acc += *v as i128; acc < i64::MIN as i128 || acc > i64::MAX as i128 }) };
+        let (ov_a, ov_b) = (overflows(&vals), overflows(&pvals));
         let a = run_files(&prepared, &[join_lines(&lines)]);
         let b = run_files(&prepared, &[join_lines(&perm)]);
         run.oracle_checks += 1;
         run.count("extreme-int-sums");
         let desc = format!("query={} input={:?} permuted={:?}", q, lines, perm);
-        if a.status == "panic" || b.status == "panic" { run.fail(desc, "panic:extreme-sum", "panicked".to_owned()); continue; }
-        if a.status == b.status && a.records() == b.records() {
-            // both orders agree; a value must be the exact sum
-            if a.status == "ok" && fits && !a.records().iter().any(|r| r.contains(&exact.to_string())) {
-                run.fail(desc, "sum-not-exact", format!("printed {:?}, the exact sum is {}", a.records(), exact));
+        for (r, ls, ov) in [(&a, &lines, ov_a), (&b, &perm, ov_b)] {
+            if let Some(case) = batch_case(&prepared, b"", &[join_lines(ls)], None) {
+                run.case_with_desc(case, r.wire(), format!("extreme-sum:{}:overflows{}:{}", r.status, ov as u8, q.len()), format!("query={} input={:?}", q, ls));
             }
-            continue;
         }
-        let (okr, err) = if a.status == "ok" { (&a, &b) } else { (&b, &a) };
-        let d71 = fits && okr.status == "ok" && err.status.starts_with("err:") && okr.records().iter().any(|r| r.contains(&exact.to_string()));
-        run.fail(desc, if d71 { "D71:int-sum-order-dependent-overflow" } else { "permutation-changes-result" }, format!("{} {:?} vs {} {:?} (exact sum {})", a.status, a.records(), b.status, b.records(), exact));
+        if a.status == "panic" || b.status == "panic" { run.fail(desc, "panic:extreme-sum", "panicked".to_owned()); continue; }
+        // the one record of an answering run, parsed: (key, COUNT(*), SUM) as far as the statement has them
+        let parsed = |r: &crate::engine_run::BatchResult| -> Option<(Option<String>, Option<i128>, Option<i128>)> {
+            let recs = r.records();
+            if r.status != "ok" || recs.len() != 1 { return None; }
+            let (mut key, mut count, mut sum) = (None, None, None);
+            for part in recs[0].split(", ") {
+                let (name, value) = part.split_once(": ")?;
+                if name == "k" { key = Some(value.to_owned()); }
+                else if name.starts_with("count") { count = Some(value.parse::<i128>().ok()?); }
+                else if name.starts_with("sum") { sum = Some(value.parse::<i128>().ok()?); }
+                else { return None; }
+            }
+            Some((key, count, sum))
+        };
+        // what an order whose partial sums all fit must print: the exact sum (and the line count, the key 'a')
+        let answers_exactly = |r: &crate::engine_run::BatchResult| -> bool {
+            match parsed(r) {
+                Some((key, count, Some(sum))) => sum == exact && key.map_or(!q.contains("GROUP BY"), |k| q.contains("GROUP BY") && k == "'a'") && count.map_or(!q.contains("COUNT"), |c| q.contains("COUNT") && c == vals.len() as i128),
+                _ => false,
+            }
+        };
+        const OVERFLOW: &str = "err:UndefinedOperation";
+        let reports_overflow = |r: &crate::engine_run::BatchResult| r.status == OVERFLOW && r.records().is_empty();
+        let show = format!("{} {:?} (some partial sum overflows: {}) vs {} {:?} (overflows: {}); exact sum {}", a.status, a.records(), ov_a, b.status, b.records(), ov_b, exact);
+        match (ov_a, ov_b) {
+            // no partial sum overflows in either order: both must print the exact sum
+            (false, false) => if !(answers_exactly(&a) && answers_exactly(&b)) {
+                run.fail(desc, if a.status == b.status && a.records() == b.records() { "sum-not-exact" } else { "permutation-changes-result" }, show);
+            },
+            // both orders pass through an overflowing partial sum: the same outcome in both is all the property asks
+            (true, true) => if a.status != b.status || a.records() != b.records() { run.fail(desc, "permutation-changes-result", show); },
+            // exactly one order overflows: the outcomes may only differ as finding D71 documents; equal outcomes must be right
+            _ => {
+                let (answering, erroring) = if ov_a { (&b, &a) } else { (&a, &b) };
+                if a.status == b.status && a.records() == b.records() {
+                    if !answers_exactly(answering) { run.fail(desc, "sum-not-exact", show); }
+                } else {
+                    let d71 = reports_overflow(erroring) && answers_exactly(answering);
+                    run.fail(desc, if d71 { "D71:int-sum-order-dependent-overflow" } else { "permutation-changes-result" }, show);
+                }
+            }
+        }
     }
     // split: the result over a concatenation is the key-wise combination of the results over the parts
     let m = p.n(800, 30_000);
